@@ -21,6 +21,7 @@ type ownerDef struct {
 	Conc   bool   // goroutine-backed
 	Cb     bool   // has an error-returning callback
 	Red    bool   // a reducer (closes by itself; no stop points)
+	Ctor   bool   // takes a context at construction
 	Triv   bool   // can never consume an item (zero streams, First 0): exercised, but never non-trivial
 	Src2   func(n int) int
 	Ns     []int // nil: 0..maxN
@@ -167,22 +168,22 @@ func owners() []ownerDef {
 	}})
 
 	// --- reducers ---------------------------------------------------------------------------
-	add(ownerDef{Name: "Collect", Family: "Collect", Build: func(s *scen, n int, f fault) built {
+	add(ownerDef{Red: true, Name: "Collect", Family: "Collect", Build: func(s *scen, n int, f fault) built {
 		src := s.one(n, f)
 		return reducer(func(ctx context.Context) error { _, err := stream.Collect[int](ctx, src); return err })
 	}})
 	for _, k := range []int{0, 2} {
 		k := k
-		add(ownerDef{Name: fmt.Sprintf("Last[%d]", k), Family: "Last", Build: func(s *scen, n int, f fault) built {
+		add(ownerDef{Red: true, Name: fmt.Sprintf("Last[%d]", k), Family: "Last", Build: func(s *scen, n int, f fault) built {
 			src := s.one(n, f)
 			return reducer(func(ctx context.Context) error { _, err := stream.Last[int](ctx, src, k); return err })
 		}})
 	}
-	add(ownerDef{Name: "One", Family: "One", Build: func(s *scen, n int, f fault) built {
+	add(ownerDef{Red: true, Name: "One", Family: "One", Build: func(s *scen, n int, f fault) built {
 		src := s.one(n, f)
 		return reducer(func(ctx context.Context) error { _, err := stream.One[int](ctx, src); return err })
 	}})
-	add(ownerDef{Name: "Reduce", Family: "Reduce", Cb: true, Build: func(s *scen, n int, f fault) built {
+	add(ownerDef{Red: true, Name: "Reduce", Family: "Reduce", Cb: true, Build: func(s *scen, n int, f fault) built {
 		src := s.one(n, f)
 		cb := s.cbInt(0, f)
 		return reducer(func(ctx context.Context) error {
@@ -195,12 +196,12 @@ func owners() []ownerDef {
 	}})
 	for _, k := range []int{1, 3} {
 		k := k
-		add(ownerDef{Name: fmt.Sprintf("xrand.SampleStream[%d]", k), Family: "xrand.SampleStream", Build: func(s *scen, n int, f fault) built {
+		add(ownerDef{Red: true, Name: fmt.Sprintf("xrand.SampleStream[%d]", k), Family: "xrand.SampleStream", Build: func(s *scen, n int, f fault) built {
 			src := s.one(n, f)
 			return reducer(func(ctx context.Context) error { _, err := xrand.SampleStream[int](ctx, src, k); return err })
 		}})
 	}
-	add(ownerDef{Name: "xrand.RSampleStream[2]", Family: "xrand.RSampleStream", Build: func(s *scen, n int, f fault) built {
+	add(ownerDef{Red: true, Name: "xrand.RSampleStream[2]", Family: "xrand.RSampleStream", Build: func(s *scen, n int, f fault) built {
 		src := s.one(n, f)
 		rr := rand.New(rand.NewSource(int64(s.rnd.Uint64() >> 1)))
 		return reducer(func(ctx context.Context) error { _, err := xrand.RSampleStream[int](ctx, rr, src, 2); return err })
@@ -233,9 +234,9 @@ func owners() []ownerDef {
 	}})
 	for _, pb := range [][2]int{{1, 0}, {3, 2}, {2, 8}} {
 		pb := pb
-		add(ownerDef{Name: fmt.Sprintf("parallel.MapStream[par%d,buf%d]", pb[0], pb[1]), Family: "parallel.MapStream", Conc: true, Cb: true,
+		add(ownerDef{Name: fmt.Sprintf("parallel.MapStream[par%d,buf%d]", pb[0], pb[1]), Family: "parallel.MapStream", Conc: true, Cb: true, Ctor: true,
 			Build: func(s *scen, n int, f fault) built {
-				return wrap(parallel.MapStream[int, int](context.Background(), s.one(n, f), pb[0], pb[1], s.cbInt(0, f)), wOne)
+				return wrap(parallel.MapStream[int, int](ctorCtx(f), s.one(n, f), pb[0], pb[1], s.cbInt(0, f)), wOne)
 			}})
 	}
 	// goroutine-backed streams handed to another owner (later Join arguments that may never be reached;
@@ -245,11 +246,11 @@ func owners() []ownerDef {
 		x := s.src("leaf.x", 300, 2, -1, f.Kind == fBlock)
 		return wrap(stream.Join[int](ps[0], stream.Merge[int](ps[1], x), stream.FlattenSlices(stream.Batch[int](ps[2], batchWait, 2))), wOne)
 	}})
-	add(ownerDef{Name: "Merge[FlattenSlices(Batch[2]),parallel.MapStream,src]", Family: "tree-pipeline", Conc: true, Cb: true, Build: func(s *scen, n int, f fault) built {
+	add(ownerDef{Name: "Merge[FlattenSlices(Batch[2]),parallel.MapStream,src]", Family: "tree-pipeline", Conc: true, Cb: true, Ctor: true, Build: func(s *scen, n int, f fault) built {
 		ps := s.parts("leaf", shape("even3", n), f)
 		return wrap(stream.Merge[int](
 			stream.FlattenSlices(stream.Batch[int](ps[0], batchWait, 2)),
-			parallel.MapStream[int, int](context.Background(), ps[1], 2, 2, s.cbInt(0, f)),
+			parallel.MapStream[int, int](ctorCtx(f), ps[1], 2, 2, s.cbInt(0, f)),
 			ps[2]), wOne)
 	}})
 	// reducers that own a goroutine-backed stream (the reducer's return is the moment of truth)
@@ -265,8 +266,8 @@ func owners() []ownerDef {
 		st := stream.Merge[int](asStreams(s.parts("in", shape("even3", n), f))...)
 		return reducer(func(ctx context.Context) error { _, err := stream.Collect(ctx, st); return err })
 	}})
-	add(ownerDef{Red: true, Name: "Last[1](parallel.MapStream[par2,buf2])", Family: "parallel.MapStream", Conc: true, Cb: true, Build: func(s *scen, n int, f fault) built {
-		st := parallel.MapStream[int, int](context.Background(), s.one(n, f), 2, 2, s.cbInt(0, f))
+	add(ownerDef{Red: true, Ctor: true, Name: "Last[1](parallel.MapStream[par2,buf2])", Family: "parallel.MapStream", Conc: true, Cb: true, Build: func(s *scen, n int, f fault) built {
+		st := parallel.MapStream[int, int](ctorCtx(f), s.one(n, f), 2, 2, s.cbInt(0, f))
 		return reducer(func(ctx context.Context) error { _, err := stream.Last(ctx, st, 1); return err })
 	}})
 	add(ownerDef{Red: true, Name: "xrand.SampleStream[2](Merge[even2])", Family: "Merge", Conc: true, Build: func(s *scen, n int, f fault) built {
@@ -283,6 +284,7 @@ type stageDef struct {
 	Name  string
 	Conc  bool
 	Cb    bool
+	Ctor  bool
 	Apply func(s *scen, in stream.Stream[int], idx int, f fault) stream.Stream[int]
 }
 
@@ -376,8 +378,8 @@ func stages() []stageDef {
 		{Name: "Merge[in]", Conc: true, Apply: func(s *scen, in stream.Stream[int], idx int, f fault) stream.Stream[int] {
 			return stream.Merge[int](in)
 		}},
-		{Name: "parallel.MapStream", Conc: true, Cb: true, Apply: func(s *scen, in stream.Stream[int], idx int, f fault) stream.Stream[int] {
-			return parallel.MapStream(context.Background(), in, 2, 2, s.cbInt(idx, f))
+		{Name: "parallel.MapStream", Conc: true, Cb: true, Ctor: true, Apply: func(s *scen, in stream.Stream[int], idx int, f fault) stream.Stream[int] {
+			return parallel.MapStream(ctorCtx(f), in, 2, 2, s.cbInt(idx, f))
 		}},
 	}
 }
@@ -429,8 +431,16 @@ func drawPipeline(rnd *vkit.Rand, st []stageDef, conc bool, maxN int) pspec {
 	if ps.Term == "Reduce" {
 		cbStages = append(cbStages, len(ps.Stages))
 	}
-	x := rnd.Intn(10)
+	hasCtor := false
+	for _, j := range ps.Stages {
+		hasCtor = hasCtor || st[j].Ctor
+	}
+	x := rnd.Intn(12)
 	switch {
+	case x == 10 || x == 11 && !hasCtor:
+		ps.Fault = fault{Kind: fCtxCall, P: rnd.Intn(ps.N + 1), Stage: rnd.Intn(2)}
+	case x == 11:
+		ps.Fault = fault{Kind: fCtxCtor, P: rnd.Intn(2)}
 	case x < 3:
 	case x < 7:
 		ps.Fault = fault{Kind: fSrc, P: rnd.Intn(ps.N + 1)}
